@@ -249,7 +249,10 @@ class RunningFailureMonitor(Monitor):
                             if not any(s in (100, 200, 0) for _, _, s in events):
                                 self.violate('C06/restart-process-applied-twice', f'{where}: {len(starts)} restarts '
                                              f'of {namespec} planned by the Master', case=run.describe())
-                        if last_action < t and not self.crashed_since(app, t) and w.now - t > 12 * TICK:
+                        stopped_later = [p for p in self.plans if p[0] > t and p[3] in ('stop_application', 'stop_process')
+                                         and (p[4] == app or p[4].split(':')[0] == app)]
+                        if last_action < t and not self.crashed_since(app, t) and w.now - t > 12 * TICK and \
+                                not stopped_later and record is self.losses[-1]:
                             self.check_running_once(run, record, namespec, where)
                 else:
                     window = [p for p in self.plans if p[1] == nick and p[2] == inc and t < p[0] <= t + 3 * TICK
